@@ -334,6 +334,13 @@ def run(ctx):
     ub, ur = get_method(um, 'process_bind_param'), get_method(um, 'process_result_value')
     okb = any(isinstance(n, ast.BinOp) and isinstance(n.op, ast.BitOr) and 'value' in U(n) for n in walk_local(ub))
     okr = any(isinstance(n, ast.For) and (dotted(n.iter) or '').endswith('CryptographicUsageMask') for n in walk_local(ur)) and any(isinstance(n, ast.BinOp) and isinstance(n.op, ast.BitAnd) for n in walk_local(ur))
+    # the column converters are total: they run inside flush / load, where an exception surfaces after the row was written (or makes a stored row unreadable)
+    for cl_ in [x for x in st.body if isinstance(x, ast.ClassDef)]:
+        for mth in [f for f in cl_.body if isinstance(f, ast.FunctionDef) and f.name in ('process_bind_param', 'process_result_value')]:
+            rz_ = [x for x in walk_local(mth) if isinstance(x, ast.Raise)]
+            ctx.check(not rz_, 'C05.R3', '%s.%s|total' % (cl_.name, mth.name), '%s:%s %s.%s' % (SQLT, mth.lineno, cl_.name, mth.name), 'the converter raises nothing of its own',
+                      'the column converter can raise (line %s): %s' % ([x.lineno for x in rz_], 'a value the writer accepted becomes unreadable - the object is stored, its creation reports failure, and every later load of it fails'
+                                                                                 if mth.name == 'process_result_value' else 'the flush fails after other rows of the object were already written'))
     # exact inverse: the only value process_result_value returns is the list filled by append(<loop variable>) under `<loop variable>.value & value`
     rg_ = CFG(ur)
     exact = True
